@@ -14,6 +14,7 @@ pub fn subs() -> Vec<Sub> {
         Sub { name: "state", run: run_state },
         Sub { name: "bmap", run: run_bmap },
         Sub { name: "lencode", run: run_lencode },
+        Sub { name: "bigdata", run: run_bigdata },
     ]
 }
 
@@ -286,6 +287,39 @@ fn run_lencode(ctx: &Ctx) -> CheckResult {
     ctx.subcheck("lencode", ns.len() as u64);
     ctx.exhaustive("all 170 length-table boundaries t-1, t, t+1");
     ctx.ev.borrow_mut().sample(json!({"check": "lencode", "n": ns[7], "reference_code": vmodel::length_code(ns[7] as u64)}));
+    Ok(())
+}
+
+/// Thorough: REAL inputs of 17..90 MB with period <= 4, so that real bucket counts exceed
+/// 2^24 (f32 and integer Q ratios diverge) and 42,949,673 (q*100 wraps in 32 bits). This is
+/// the same comparison as `data`, on the count classes that otherwise rest on state injection.
+fn run_bigdata(ctx: &Ctx) -> CheckResult {
+    if ctx.tier == crate::ctx::Tier::Quick {
+        ctx.skipped("bigdata: thorough tier only (real inputs of 17..90 MB)");
+        return Ok(());
+    }
+    let vs = ctx.api.variants();
+    let mut jobs = Vec::new();
+    let rnd = ctx.sample_values("bigdata", 15, &(17usize << 20..90usize << 20, 1u8..=4, proptest::prelude::any::<u64>()));
+    for (i, (len, period, seed)) in rnd.into_iter().enumerate() {
+        jobs.push((i % 5, DataSpec { kind: gens::Kind::Periodic(period, (i % 3) as u8), len, seed, explicit: None }));
+    }
+    let results = par_map(ctx.threads.min(8), &jobs, |(vi, d)| -> Result<(), String> {
+        let st = CaseStats::null();
+        case_data(vs[*vi], &d.render(), &st)
+    });
+    for ((vi, d), r) in jobs.iter().zip(results) {
+        let mut ev = ctx.ev.borrow_mut();
+        ev.evaluations += 34;
+        ev.nontrivial_enumerated += 1;
+        ev.class("real input with bucket counts >= 2^24");
+        ev.sample(json!({"check": "bigdata", "variant": vs[*vi].v().name, "len": d.len, "data": d.to_json()}));
+        drop(ev);
+        if let Err(m) = r {
+            return Err(ctx.violation("data", m, json!({"variant": vs[*vi].v().name, "data": d.to_json()})));
+        }
+    }
+    ctx.subcheck("bigdata", jobs.len() as u64);
     Ok(())
 }
 
